@@ -150,7 +150,7 @@ Definition astep (n : nat) (st : list aval) (op : scan_op) : option (list aval) 
   | ORevJoin b a =>
       if (b <? length st) && (a <? length st) && negb (a =? b) then
         match nth a st AEmpty, nth b st AEmpty with
-        | AEmpty, _ => Some st
+        | AEmpty, x => Some (set_nth b x st)
         | AIval base s m, AEmpty => Some (set_nth b (AIval base s m) st)
         | AIval base s m, AIval false m' e =>
             if m =? m' then Some (set_nth b (AIval base s e) st) else None
